@@ -449,7 +449,7 @@ func zzC07Run(tmpl slip.Object, nlit int, maxIt int) {
 	scope := slip.NewScope()
 	scope.Let(slip.Symbol("x"), slip.Fixnum(0))
 	scope.Let(slip.Symbol("n"), slip.Fixnum(0))
-	zzBudget(scope, 3000)
+	zzBudget(scope, 400)
 	run := &zzRun{sink: &zzSink{}}
 	zzEvalGuard(run, func() slip.Object {
 		scope.Let(slip.Symbol("mu"), scope.Eval(slip.List{slip.Symbol("make-mutex")}, 0))
